@@ -1,10 +1,574 @@
-import ScryerModel.Model.AtomOps
-/-! C22 — property theorems (work in progress) -/
+import ScryerModel.Proofs.AtomOps
+import ScryerModel.Model.Utf8
+/-!
+# C22 — Atom and character builtins agree with their string semantics
+
+The model (`Model/AtomOps.lean`) follows builtins.pl / charsio.pl / system_calls.rs test by test.
+The theorems below say that, for atoms of every length (no bound), the mirrored clauses compute the
+string operations: lengths in characters, the two list conversions and their inverses, the
+char ↔ code bijection on scalar values, atom_concat/3 as the ordered enumeration of all splits,
+sub_atom/5 as the ordered, duplicate-free enumeration of all (Before, Length, After) triples, the
+error tables in the order of the code, and the character classes on ASCII.
+-/
 namespace Scryer.AtomOps
+open Scryer
+
+/-! ## atom_length/2 -/
 
 /-- atom_length/2 with an unbound length answers once, with the number of characters. -/
 theorem C22_atom_length_chars (s : List Char) (n : String) :
     atomLength (.con (.atom s)) (.var n) = .ok [[(n, .one (.int s.length))]] := by
-  simp [atomLength, answers, unifyArg, bindVar]
+  simp [atomLength, answers, unifyArg]
+
+/-- atom_length/2 with a bound non-negative length is the test `Length = number of characters`. -/
+theorem C22_atom_length_test (s : List Char) (k : Int) (hk : 0 ≤ k) :
+    atomLength (.con (.atom s)) (.con (.int k)) = .ok (if k = s.length then [[]] else []) := by
+  by_cases h : k = s.length
+  · subst h; simp [atomLength, answers, unifyArg]
+  · have h' : Atomic.int k ≠ Atomic.int s.length := by simpa using h
+    simp [atomLength, answers, unifyArg, hk, h, h']
+
+/-- number of bytes of the UTF-8 encoding of a text. -/
+def utf8Len (s : List Char) : Nat := (s.map fun c => Scryer.Utf8.lenUtf8 c.toNat).sum
+
+/-- the length is counted in characters, not bytes: never more than the byte length … -/
+theorem C22_atom_length_le_bytes (s : List Char) : s.length ≤ utf8Len s := by
+  induction s with
+  | nil => simp [utf8Len]
+  | cons c cs ih =>
+    have : 1 ≤ Scryer.Utf8.lenUtf8 c.toNat := by unfold Scryer.Utf8.lenUtf8; split <;> (try split) <;> (try split) <;> omega
+    simp only [utf8Len, List.map_cons, List.sum_cons, List.length_cons] at *
+    omega
+
+/-- … and strictly less as soon as one character is not ASCII. -/
+theorem C22_atom_length_lt_bytes (s : List Char) (h : ∃ c ∈ s, 0x80 ≤ c.toNat) :
+    s.length < utf8Len s := by
+  induction s with
+  | nil => simp at h
+  | cons c cs ih =>
+    have h1 : 1 ≤ Scryer.Utf8.lenUtf8 c.toNat := by unfold Scryer.Utf8.lenUtf8; split <;> (try split) <;> (try split) <;> omega
+    have hle := C22_atom_length_le_bytes cs
+    simp only [utf8Len, List.map_cons, List.sum_cons, List.length_cons] at *
+    rcases h with ⟨d, hd, hd2⟩
+    rcases List.mem_cons.1 hd with rfl | hd'
+    · have : 2 ≤ Scryer.Utf8.lenUtf8 d.toNat := by
+        unfold Scryer.Utf8.lenUtf8; split <;> (try split) <;> (try split) <;> omega
+      omega
+    · have := ih ⟨d, hd', hd2⟩
+      omega
+
+/-- error table of atom_length/2, in the order of the code: instantiation of the atom, its type,
+    then the length (negative integer: domain error, non-integer: type error). -/
+theorem C22_atom_length_errors :
+    (∀ n l, atomLength (.var n) l = .error .inst) ∧
+    (∀ i l, atomLength (.con (.int i)) l = .error (.type "atom" (.int i))) ∧
+    (∀ t l, atomLength (.other t) l = .error (.type "atom" t)) ∧
+    (∀ s k, k < 0 → atomLength (.con (.atom s)) (.con (.int k)) = .error (.dom "not_less_than_zero" (.int k))) ∧
+    (∀ s a, atomLength (.con (.atom s)) (.con (.atom a)) = .error (.type "integer" (.atom (String.ofList a)))) ∧
+    (∀ s t, atomLength (.con (.atom s)) (.other t) = .error (.type "integer" t)) := by
+  refine ⟨?_, ?_, ?_, ?_, ?_, ?_⟩ <;> intros <;> simp [atomLength, Arg.toTerm, Atomic.toTerm]
+  omega
+
+/-! ## atom_chars/2 and atom_codes/2 -/
+
+/-- the proper list of the one-character atoms of a text, as an argument. -/
+def charsArg (s : List Char) : LArg := ⟨s.map fun c => .con (charAtom c), .con nilAtom⟩
+/-- the proper list of the codes of a text, as an argument. -/
+def codesArg (s : List Char) : LArg := ⟨s.map fun c => .con (codeAtomic c), .con nilAtom⟩
+
+/-- atom → chars: one answer, the list of the characters (the atom `[]` for the empty text). -/
+theorem C22_atom_chars_decompose (s : List Char) (l : String) :
+    atomChars (.con (.atom s)) ⟨[], .var l⟩ = .ok [[(l, Val.ofList (s.map charAtom))]] := by
+  simp [atomChars, atomText, tailOk, charsOrVars, unifyL, unifyElems, answers]
+
+/-- chars → atom: one answer, the atom whose text is the list. -/
+theorem C22_atom_chars_compose (s : List Char) (x : String) :
+    atomChars (.var x) (charsArg s) = .ok [[(x, .one (.atom s))]] := by
+  simp [atomChars, atomText, charsArg, tailOk, all_ground_con, charsOrVars_chars, filterMap_charOf,
+    answers, unifyArg]
+
+/-- both bound: the test `text = list`; so decompose and compose are inverse to each other. -/
+theorem C22_atom_chars_test (s cs : List Char) :
+    atomChars (.con (.atom s)) (charsArg cs) = .ok (if cs = s then [[]] else []) := by
+  simp only [atomChars, atomText, charsArg, tailOk, charsOrVars_chars, unifyL]
+  rw [unifyElems_consts charAtom charAtom_injective]
+  by_cases h : cs = s <;> simp [h, answers]
+
+/-- atom → codes. -/
+theorem C22_atom_codes_decompose (s : List Char) (l : String) :
+    atomCodes (.con (.atom s)) ⟨[], .var l⟩ = .ok [[(l, Val.ofList (s.map codeAtomic))]] := by
+  simp [atomCodes, atomText, tailOk, codesOrVars, unifyL, unifyElems, answers]
+
+/-- codes → atom. -/
+theorem C22_atom_codes_compose (s : List Char) (x : String) :
+    atomCodes (.var x) (codesArg s) = .ok [[(x, .one (.atom s))]] := by
+  simp [atomCodes, atomText, codesArg, tailOk, all_ground_con, codesOrVars_codes, filterMap_codeOf,
+    answers, unifyArg]
+
+/-- both bound: the test `codes of the text = list`. -/
+theorem C22_atom_codes_test (s cs : List Char) :
+    atomCodes (.con (.atom s)) (codesArg cs) = .ok (if cs = s then [[]] else []) := by
+  simp only [atomCodes, atomText, codesArg, tailOk, codesOrVars_codes, unifyL]
+  rw [unifyElems_consts codeAtomic codeAtomic_injective]
+  by_cases h : cs = s <;> simp [h, answers]
+
+/-- error table shared by atom_chars/2 and atom_codes/2 (`atomText`), in the order of the code:
+    a list argument that is not a list or partial list, both arguments unbound (partial list),
+    a non-ground list with an unbound atom, the element check, an atom argument that is no atom. -/
+theorem C22_atom_text_errors (check : List Arg → Except Err Unit) (dec : Arg → Option Char)
+    (enc : Char → Atomic) :
+    (∀ a l, tailOk l.tail = false → atomText check dec enc a l = .error (.type "list" l.toTerm)) ∧
+    (∀ x es t, atomText check dec enc (.var x) ⟨es, .var t⟩ = .error .inst) ∧
+    (∀ x es, es.all Arg.ground = false →
+        atomText check dec enc (.var x) ⟨es, .con nilAtom⟩ = .error .inst) ∧
+    (∀ x es e, es.all Arg.ground = true → check es = .error e →
+        atomText check dec enc (.var x) ⟨es, .con nilAtom⟩ = .error e) ∧
+    (∀ s l e, tailOk l.tail = true → check l.elems = .error e →
+        atomText check dec enc (.con (.atom s)) l = .error e) ∧
+    (∀ i l, tailOk l.tail = true →
+        atomText check dec enc (.con (.int i)) l = .error (.type "atom" (.int i))) ∧
+    (∀ t l, tailOk l.tail = true →
+        atomText check dec enc (.other t) l = .error (.type "atom" t)) := by
+  refine ⟨?_, ?_, ?_, ?_, ?_, ?_, ?_⟩
+  · intro a l h; simp [atomText, h]
+  · intro x es t; simp [atomText, tailOk]
+  · intro x es h; simp [atomText, tailOk, h]
+  · intro x es e h1 h2; simp [atomText, tailOk, h1, h2]
+  · intro s l e h1 h2; simp [atomText, h1, h2]
+  · intro i l h; simp [atomText, h, Arg.toTerm, Atomic.toTerm]
+  · intro t l h; simp [atomText, h, Arg.toTerm]
+
+/-- the element check of atom_chars/2 skips variables and characters and reports the first other
+    element as `type_error(character, E)`. -/
+theorem C22_chars_or_vars_first_bad (pre : List Char) (e : Arg) (post : List Arg)
+    (hv : ∀ n, e ≠ .var n) (hc : isCharArg e = false) :
+    charsOrVars ((pre.map fun c => Arg.con (charAtom c)) ++ e :: post)
+      = .error (.type "character" e.toTerm) := by
+  induction pre with
+  | nil =>
+    cases e with
+    | var n => exact absurd rfl (hv n)
+    | con a => simp [charsOrVars, hc]
+    | other t => simp [charsOrVars, hc]
+  | cons c cs ih =>
+    have h1 : ∀ r, charsOrVars (Arg.con (charAtom c) :: r) = charsOrVars r := by
+      intro r; simp [charsOrVars, charAtom, isCharArg]
+    simp only [List.map_cons, List.cons_append, h1, ih]
+
+/-- the element check of atom_codes/2: an integer that is not a scalar value is a
+    representation error (also beyond 2^32 and 2^64: see notes/findings/C22-2.md), any other
+    bound non-integer a type error. -/
+theorem C22_codes_or_vars_first_bad (pre : List Char) (post : List Arg) :
+    (∀ k, validScalar k = false →
+      codesOrVars ((pre.map fun c => Arg.con (codeAtomic c)) ++ .con (.int k) :: post)
+        = .error (.rep "character_code")) ∧
+    (∀ a, codesOrVars ((pre.map fun c => Arg.con (codeAtomic c)) ++ .con (.atom a) :: post)
+        = .error (.type "integer" (.atom (String.ofList a)))) ∧
+    (∀ t, codesOrVars ((pre.map fun c => Arg.con (codeAtomic c)) ++ .other t :: post)
+        = .error (.type "integer" t)) := by
+  induction pre with
+  | nil =>
+    refine ⟨?_, ?_, ?_⟩
+    · intro k hk; simp [codesOrVars, hk]
+    · intro a; simp [codesOrVars, Arg.toTerm, Atomic.toTerm]
+    · intro t; simp [codesOrVars, Arg.toTerm]
+  | cons c cs ih =>
+    have h1 : ∀ r, codesOrVars (Arg.con (codeAtomic c) :: r) = codesOrVars r := by
+      intro r; simp [codesOrVars, codeAtomic, validScalar_toNat]
+    simp only [List.map_cons, List.cons_append, h1]
+    exact ih
+
+/-! ## char_code/2 -/
+
+/-- char → code: the scalar value of the character. -/
+theorem C22_char_code_of_char (c : Char) (k : String) :
+    charCode (.con (charAtom c)) (.var k) = .ok [[(k, .one (.int c.toNat))]] := by
+  simp [charCode, charAtom, answers, unifyArg]
+
+/-- code → char for a scalar value. -/
+theorem C22_char_code_of_code (n : Int) (x : String) (h : validScalar n = true) :
+    charCode (.var x) (.con (.int n)) = .ok [[(x, .one (charAtom (Char.ofNat n.toNat)))]] := by
+  simp [charCode, h, answers, unifyArg]
+
+/-- the two directions are inverse to each other: char_code/2 is a bijection between the
+    one-character atoms and the scalar values 0..0xD7FF, 0xE000..0x10FFFF. -/
+theorem C22_char_code_bijection :
+    (∀ c : Char, validScalar (c.toNat : Int) = true ∧ Char.ofNat ((c.toNat : Int).toNat) = c) ∧
+    (∀ n : Int, validScalar n = true → ((Char.ofNat n.toNat).toNat : Int) = n) := by
+  refine ⟨fun c => ⟨validScalar_toNat c, by simp⟩, ?_⟩
+  intro n h
+  simp only [validScalar, Bool.or_eq_true, Bool.and_eq_true, decide_eq_true_eq] at h
+  have hv : n.toNat.isValidChar := by
+    simp only [Nat.isValidChar]; omega
+  have : (Char.ofNat n.toNat).toNat = n.toNat := by
+    simp [Char.ofNat, hv, Char.ofNatAux, Char.toNat]
+  rw [this]; omega
+
+/-- both bound: the test `code of Char = Code` (no error for a bound code outside the range). -/
+theorem C22_char_code_test (c : Char) (n : Int) :
+    charCode (.con (charAtom c)) (.con (.int n)) = .ok (if n = c.toNat then [[]] else []) := by
+  by_cases h : n = c.toNat
+  · subst h; simp [charCode, charAtom, answers, unifyArg]
+  · have h' : Atomic.int n ≠ Atomic.int c.toNat := by simpa using h
+    simp [charCode, charAtom, answers, unifyArg, h, h']
+
+/-- error table of char_code/2. -/
+theorem C22_char_code_errors :
+    (∀ x k, charCode (.var x) (.var k) = .error .inst) ∧
+    (∀ x n, validScalar n = false → charCode (.var x) (.con (.int n)) = .error (.rep "character_code")) ∧
+    (∀ x a, charCode (.var x) (.con (.atom a)) = .error (.type "integer" (.atom (String.ofList a)))) ∧
+    (∀ x t, charCode (.var x) (.other t) = .error (.type "integer" t)) ∧
+    (∀ a k, a.length ≠ 1 → charCode (.con (.atom a)) k = .error (.type "character" (.atom (String.ofList a)))) ∧
+    (∀ i k, charCode (.con (.int i)) k = .error (.type "character" (.int i))) ∧
+    (∀ t k, charCode (.other t) k = .error (.type "character" t)) ∧
+    (∀ c t, charCode (.con (charAtom c)) (.other t) = .error (.type "integer" t)) := by
+  refine ⟨?_, ?_, ?_, ?_, ?_, ?_, ?_, ?_⟩
+  · intros; simp [charCode]
+  · intro x n h; simp [charCode, h]
+  · intros; simp [charCode, Arg.toTerm, Atomic.toTerm]
+  · intros; simp [charCode, Arg.toTerm]
+  · intro a k h
+    match a, h with
+    | [], _ => simp [charCode, Arg.toTerm, Atomic.toTerm]
+    | _ :: _ :: _, _ => simp [charCode, Arg.toTerm, Atomic.toTerm]
+  · intros; simp [charCode, Arg.toTerm, Atomic.toTerm]
+  · intros; simp [charCode, Arg.toTerm]
+  · intros; simp [charCode, charAtom, Arg.toTerm]
+
+/-! ## atom_concat/3 -/
+
+/-- `splits z` (the answers of append/3) are exactly the pairs with `x ++ y = z` … -/
+theorem C22_splits_exact (z x y : List Char) : (x, y) ∈ splits z ↔ x ++ y = z :=
+  mem_splits z (x, y)
+
+/-- … in the order of increasing length of the first part: position `i` is `(take i z, drop i z)`,
+    so there are `|z| + 1` of them, each once. -/
+theorem C22_splits_order (z : List Char) :
+    splits z = (List.range (z.length + 1)).map (fun i => (z.take i, z.drop i)) ∧
+    (splits z).length = z.length + 1 ∧ (splits z).Nodup :=
+  ⟨splits_eq_range z, splits_length z, splits_nodup z⟩
+
+/-- atom_concat(X, Y, +Z) with two different unbound variables enumerates exactly the splits of
+    `Z`, in that order, one answer each. -/
+theorem C22_atom_concat_enum (z : List Char) (x y : String) (hxy : x ≠ y) :
+    atomConcat (.var x) (.var y) (.con (.atom z)) =
+      .ok ((splits z).map fun p => [(y, .one (.atom p.2)), (x, .one (.atom p.1))]) := by
+  have hb : (x == y) = false := by simpa using hxy
+  simp only [atomConcat, canBeAtom]
+  congr 1
+  rw [← List.filterMap_eq_map']
+  apply List.filterMap_congr
+  intro p _
+  simp [unifyArg, bindVar, List.lookup, hb]
+
+/-- atom_concat(X, X, +Z): the splits into two equal halves. -/
+theorem C22_atom_concat_alias (z : List Char) (x : String) :
+    atomConcat (.var x) (.var x) (.con (.atom z)) =
+      .ok (((splits z).filter fun p => decide (p.2 = p.1)).map fun p => [(x, .one (.atom p.2))]) := by
+  simp only [atomConcat, canBeAtom]
+  congr 1
+  rw [← filterMap_ite]
+  apply List.filterMap_congr
+  intro p _
+  by_cases h : p.2 = p.1 <;> simp [unifyArg, bindVar, List.lookup, h]
+
+/-- atom_concat(+X, +Y, Z) is concatenation; with Z bound it is the test `X ++ Y = Z`. -/
+theorem C22_atom_concat_join (x y : List Char) :
+    (∀ z, atomConcat (.con (.atom x)) (.con (.atom y)) (.var z) = .ok [[(z, .one (.atom (x ++ y)))]]) ∧
+    (∀ z, atomConcat (.con (.atom x)) (.con (.atom y)) (.con (.atom z)) =
+      .ok (if x ++ y = z then [[]] else [])) := by
+  refine ⟨?_, ?_⟩
+  · intro z; simp [atomConcat, canBeAtom, answers, unifyArg]
+  · intro z
+    by_cases h : x ++ y = z
+    · subst h; simp [atomConcat, canBeAtom, answers, unifyArg]
+    · have h' : z ≠ x ++ y := fun e => h e.symm
+      simp [atomConcat, canBeAtom, answers, unifyArg, h, h']
+
+theorem stripPrefix_spec (x z : List Char) :
+    stripPrefix? x z = if x <+: z then some (z.drop x.length) else none := by
+  induction x generalizing z with
+  | nil => simp [stripPrefix?]
+  | cons a as ih =>
+    cases z with
+    | nil => simp [stripPrefix?]
+    | cons b bs =>
+      by_cases h : a = b
+      · subst h; simp [stripPrefix?, ih, List.cons_prefix_cons]
+      · simp [stripPrefix?, h, List.cons_prefix_cons]
+
+/-- atom_concat(+X, Y, +Z): at most one answer, the rest of `Z` after the prefix `X`. -/
+theorem C22_atom_concat_prefix (x z : List Char) (y : String) :
+    atomConcat (.con (.atom x)) (.var y) (.con (.atom z)) =
+      .ok (if x <+: z then [[(y, .one (.atom (z.drop x.length)))]] else []) := by
+  simp only [atomConcat, canBeAtom, stripPrefix_spec]
+  by_cases h : x <+: z <;> simp [h, answers, unifyArg]
+
+/-- atom_concat(X, +Y, +Z): one answer `X = B` when `B ++ Y = Z`, none when `Y` is no suffix. -/
+theorem C22_atom_concat_suffix (y z : List Char) (x : String) :
+    (∃ b, b ++ y = z ∧ atomConcat (.var x) (.con (.atom y)) (.con (.atom z)) = .ok [[(x, .one (.atom b))]]) ∨
+    ((∀ b, b ++ y ≠ z) ∧ atomConcat (.var x) (.con (.atom y)) (.con (.atom z)) = .ok []) := by
+  cases hf : (splits z).find? (fun p => decide (p.2 = y)) with
+  | some p =>
+    left
+    have hm := List.mem_of_find?_eq_some hf
+    have hp := List.find?_some hf
+    simp only [decide_eq_true_eq] at hp
+    refine ⟨p.1, ?_, ?_⟩
+    · rw [← hp]; exact (mem_splits z p).1 hm
+    · simp [atomConcat, canBeAtom, hf, answers, unifyArg]
+  | none =>
+    right
+    refine ⟨?_, ?_⟩
+    · intro b hb
+      have := List.find?_eq_none.1 hf (b, y) ((mem_splits z (b, y)).2 hb)
+      simp at this
+    · simp [atomConcat, canBeAtom, hf]
+
+/-- error table of atom_concat/3: the three `can_be(atom, _)` tests in argument order, then the
+    instantiation error when the whole and one part are unbound. -/
+theorem C22_atom_concat_errors :
+    (∀ t a2 a12, atomConcat (.other t) a2 a12 = .error (.type "atom" t)) ∧
+    (∀ i a2 a12, atomConcat (.con (.int i)) a2 a12 = .error (.type "atom" (.int i))) ∧
+    (∀ a1 t a12, canBeAtom a1 = none → atomConcat a1 (.other t) a12 = .error (.type "atom" t)) ∧
+    (∀ a1 a2 t, canBeAtom a1 = none → canBeAtom a2 = none →
+        atomConcat a1 a2 (.other t) = .error (.type "atom" t)) ∧
+    (∀ x a2 z, canBeAtom a2 = none → atomConcat (.var x) a2 (.var z) = .error .inst) ∧
+    (∀ s y z, atomConcat (.con (.atom s)) (.var y) (.var z) = .error .inst) := by
+  refine ⟨?_, ?_, ?_, ?_, ?_, ?_⟩
+  · intros; simp [atomConcat, canBeAtom, Arg.toTerm]
+  · intros; simp [atomConcat, canBeAtom, Arg.toTerm, Atomic.toTerm]
+  · intro a1 t a12 h; simp [atomConcat, h, canBeAtom, Arg.toTerm]
+  · intro a1 a2 t h1 h2; simp [atomConcat, h1, h2, canBeAtom, Arg.toTerm]
+  · intro x a2 z h
+    cases a2 with
+    | var n => simp [atomConcat, canBeAtom]
+    | con a =>
+      cases a with
+      | int i => simp [canBeAtom] at h
+      | atom s => simp [atomConcat, canBeAtom]
+    | other t => simp [canBeAtom] at h
+  · intros; simp [atomConcat, canBeAtom]
+
+/-! ## sub_atom/5 -/
+
+/-- the triples enumerated by the two nested appends are exactly the decompositions
+    `B ++ L ++ A = S` (sound and complete) … -/
+theorem C22_sub_triples_exact (s b l a : List Char) :
+    (b, l, a) ∈ subTriples s ↔ b ++ l ++ a = s :=
+  mem_subTriples s (b, l, a)
+
+/-- … ordered by Before ascending, then Length ascending (strictly: no duplicates), a triple being
+    determined by Before and Length; explicitly: Before `i`, Length `j` are `i = 0..|s|`,
+    `j = 0..|s|-i`. -/
+theorem C22_sub_triples_order (s : List Char) :
+    (subTriples s).Pairwise TripleLt ∧ (subTriples s).Nodup ∧
+    (∀ t u, t ∈ subTriples s → u ∈ subTriples s → t.1.length = u.1.length →
+        t.2.1.length = u.2.1.length → t = u) ∧
+    subTriples s = (List.range (s.length + 1)).flatMap fun i =>
+      (List.range (s.length - i + 1)).map fun j =>
+        (s.take i, (s.drop i).take j, (s.drop i).drop j) :=
+  ⟨subTriples_sorted s, subTriples_nodup s, subTriples_key s, subTriples_eq_range s⟩
+
+/-- the answer of sub_atom/5 for one triple. -/
+def tripleAnswer (b l a sub : String) (t : List Char × List Char × List Char) : Subst :=
+  [(b, .one (.int t.1.length)), (l, .one (.int t.2.1.length)), (a, .one (.int t.2.2.length)),
+   (sub, .one (.atom t.2.1))]
+
+/-- sub_atom(+Atom, B, L, A, Sub) with four different unbound variables: one answer per triple, in
+    the order of `subTriples`, with `Sub` the corresponding substring. -/
+theorem C22_sub_atom_enum (s : List Char) (b l a sub : String)
+    (h1 : b ≠ l) (h2 : b ≠ a) (h3 : b ≠ sub) (h4 : l ≠ a) (h5 : l ≠ sub) (h6 : a ≠ sub) :
+    subAtom (.con (.atom s)) (.var b) (.var l) (.var a) (.var sub) =
+      .ok ((subTriples s).map (tripleAnswer b l a sub)) := by
+  have e1 : (l == b) = false := by simpa using h1.symm
+  have e2 : (a == b) = false := by simpa using h2.symm
+  have e3 : (sub == b) = false := by simpa using h3.symm
+  have e4 : (a == l) = false := by simpa using h4.symm
+  have e5 : (sub == l) = false := by simpa using h5.symm
+  have e6 : (sub == a) = false := by simpa using h6.symm
+  simp only [subAtom, firstErr, canBeAtom, canBeInt, negInt]
+  congr 1
+  rw [← List.filterMap_eq_map']
+  apply List.filterMap_congr
+  intro t _
+  simp [unifyArg, bindVar, List.lookup, e1, e2, e3, e4, e5, e6, tripleAnswer]
+
+/-- sub_atom(+Atom, B, L, A, +Sub): all occurrences of `Sub`, overlapping ones included, in the
+    order of increasing Before (the filter of the ordered enumeration). -/
+theorem C22_sub_atom_occurrences (s sub : List Char) (b l a : String)
+    (h1 : b ≠ l) (h2 : b ≠ a) (h4 : l ≠ a) :
+    subAtom (.con (.atom s)) (.var b) (.var l) (.var a) (.con (.atom sub)) =
+      .ok (((subTriples s).filter fun t => decide (sub = t.2.1)).map fun t =>
+        [(b, .one (.int t.1.length)), (l, .one (.int t.2.1.length)), (a, .one (.int t.2.2.length))]) := by
+  have e1 : (l == b) = false := by simpa using h1.symm
+  have e2 : (a == b) = false := by simpa using h2.symm
+  have e4 : (a == l) = false := by simpa using h4.symm
+  simp only [subAtom, firstErr, canBeAtom, canBeInt, negInt]
+  congr 1
+  rw [← filterMap_ite]
+  apply List.filterMap_congr
+  intro t _
+  by_cases h : sub = t.2.1 <;> simp [unifyArg, bindVar, List.lookup, e1, e2, e4, h]
+
+/-- the occurrences are listed by strictly increasing position: `Before` identifies the answer. -/
+theorem C22_sub_atom_occurrences_sorted (s sub : List Char) :
+    ((subTriples s).filter fun t => decide (sub = t.2.1)).Pairwise
+      (fun t u => t.1.length < u.1.length) := by
+  have h := (subTriples_sorted s).filter (fun t => decide (sub = t.2.1))
+  rw [List.pairwise_filter] at h ⊢ <;> try exact h
+  refine (subTriples_sorted s).imp ?_
+  intro t u htu ht hu
+  simp only [decide_eq_true_eq] at ht hu
+  rcases htu with h | ⟨_, h⟩
+  · exact h
+  · rw [← ht, ← hu] at h; omega
+
+/-- sub_atom(+Atom, +B, +L, A, Sub) is deterministic: the answers come from the triples with that
+    Before and Length, and there is at most one. -/
+theorem C22_sub_atom_before_length (s : List Char) (b l : Int) (a sub : String)
+    (hb : 0 ≤ b) (hl : 0 ≤ l) (h6 : a ≠ sub) :
+    subAtom (.con (.atom s)) (.con (.int b)) (.con (.int l)) (.var a) (.var sub) =
+      .ok (((subTriples s).filter fun t => decide (b = t.1.length ∧ l = t.2.1.length)).map fun t =>
+        [(a, .one (.int t.2.2.length)), (sub, .one (.atom t.2.1))]) ∧
+    ((subTriples s).filter fun t => decide (b = t.1.length ∧ l = t.2.1.length)).length ≤ 1 := by
+  have e6 : (sub == a) = false := by simpa using h6.symm
+  refine ⟨?_, ?_⟩
+  · have nb : ¬ b < 0 := by omega
+    have nl : ¬ l < 0 := by omega
+    simp only [subAtom, firstErr, canBeAtom, canBeInt, negInt, nb, nl, if_false]
+    congr 1
+    rw [← filterMap_ite]
+    apply List.filterMap_congr
+    intro t _
+    by_cases hb' : b = t.1.length <;> by_cases hl' : l = t.2.1.length <;>
+      simp [unifyArg, bindVar, List.lookup, e6, hb', hl']
+  · have hn := (subTriples_nodup s).filter (fun t => decide (b = t.1.length ∧ l = t.2.1.length))
+    match hf : (subTriples s).filter (fun t => decide (b = t.1.length ∧ l = t.2.1.length)), hn with
+    | [], _ => simp
+    | [_], _ => simp
+    | t :: u :: r, hn' =>
+      exfalso
+      have ht : t ∈ (subTriples s).filter _ := by rw [hf]; simp
+      have hu : u ∈ (subTriples s).filter _ := by rw [hf]; simp
+      simp only [List.mem_filter, decide_eq_true_eq] at ht hu
+      have := subTriples_key s t u ht.1 hu.1 (by omega) (by omega)
+      subst this
+      simp at hn'
+
+/-- error table of sub_atom/5 in the order of the code: the atom (instantiation, type), the
+    sub-atom, the three integers (types), then the three signs. -/
+theorem C22_sub_atom_errors :
+    (∀ x b l a sub, subAtom (.var x) b l a sub = .error .inst) ∧
+    (∀ t b l a sub, subAtom (.other t) b l a sub = .error (.type "atom" t)) ∧
+    (∀ i b l a sub, subAtom (.con (.int i)) b l a sub = .error (.type "atom" (.int i))) ∧
+    (∀ s b l a t, subAtom (.con (.atom s)) b l a (.other t) = .error (.type "atom" t)) ∧
+    (∀ s l a sub t, canBeAtom sub = none →
+        subAtom (.con (.atom s)) (.other t) l a sub = .error (.type "integer" t)) ∧
+    (∀ s b a sub t, canBeAtom sub = none → canBeInt b = none →
+        subAtom (.con (.atom s)) b (.other t) a sub = .error (.type "integer" t)) ∧
+    (∀ s b l sub t, canBeAtom sub = none → canBeInt b = none → canBeInt l = none →
+        subAtom (.con (.atom s)) b l (.other t) sub = .error (.type "integer" t)) ∧
+    (∀ s l a sub k, canBeAtom sub = none → canBeInt l = none → canBeInt a = none → k < 0 →
+        subAtom (.con (.atom s)) (.con (.int k)) l a sub = .error (.dom "not_less_than_zero" (.int k))) := by
+  refine ⟨?_, ?_, ?_, ?_, ?_, ?_, ?_, ?_⟩
+  · intros; simp [subAtom]
+  · intros; simp [subAtom, Arg.toTerm]
+  · intros; simp [subAtom, Arg.toTerm, Atomic.toTerm]
+  · intros; simp [subAtom, firstErr, canBeAtom, Arg.toTerm]
+  · intro s l a sub t h; simp [subAtom, firstErr, h, canBeInt, Arg.toTerm]
+  · intro s b a sub t h1 h2; simp [subAtom, firstErr, h1, h2, canBeInt, Arg.toTerm]
+  · intro s b l sub t h1 h2 h3; simp [subAtom, firstErr, h1, h2, h3, canBeInt, Arg.toTerm]
+  · intro s l a sub k h1 h2 h3 hk; simp [subAtom, firstErr, h1, h2, h3, canBeInt, negInt, hk]
+
+/-! ## char_type/2 -/
+
+/-- on ASCII the class `alpha` (defined by exclusion in macros.rs) is: letters and `_`;
+    `alnum` adds the digits. -/
+theorem C22_ascii_alpha : ∀ cp, cp < 128 →
+    alphaChar (asciiInfo cp) cp = (inRange 'a' 'z' cp || inRange 'A' 'Z' cp || cp == 95) ∧
+    alphaNumericChar (asciiInfo cp) cp
+      = (inRange 'a' 'z' cp || inRange 'A' 'Z' cp || cp == 95 || inRange '0' '9' cp) := by
+  decide
+
+/-- on ASCII every printable character belongs to exactly one of the ISO classes alphanumeric,
+    graphic-token, solo, layout, meta — except the backslash, which macros.rs puts into both
+    `graphic_token` and `meta`; `prolog` is their union without the bare backslash class, i.e. every
+    ASCII character that is not a control character other than the layout characters. -/
+theorem C22_ascii_partition : ∀ cp, cp < 128 →
+    (prologChar (asciiInfo cp) cp = (!(asciiInfo cp).control || layoutChar cp)) ∧
+    ((alphaNumericChar (asciiInfo cp) cp).toNat + (graphicChar cp).toNat + (soloChar cp).toNat
+        + (layoutChar cp).toNat + (metaChar cp).toNat = (prologChar (asciiInfo cp) cp).toNat) ∧
+    (graphicTokenChar cp = (graphicChar cp || cp == 92)) := by
+  decide
+
+/-- on ASCII the digit classes are nested and the std-based classes are the usual ones. -/
+theorem C22_ascii_digits_case : ∀ cp, cp < 128 →
+    (binaryDigitChar cp → octalDigitChar cp) ∧ (octalDigitChar cp → decimalDigitChar cp) ∧
+    (decimalDigitChar cp → hexDigitChar cp) ∧ (hexDigitChar cp → alphaNumericChar (asciiInfo cp) cp) ∧
+    (asciiGraphic cp = (alphaNumericChar (asciiInfo cp) cp && cp != 95 || asciiPunct cp)) ∧
+    ((asciiInfo cp).upper = [Char.ofNat (if inRange 'a' 'z' cp then cp - 32 else cp)]) ∧
+    ((asciiInfo cp).lowercase → (asciiInfo cp).lower = [Char.ofNat cp]) ∧
+    ((asciiInfo cp).uppercase → (asciiInfo cp).upper = [Char.ofNat cp]) := by
+  decide
+
+/-- the documented example of charsio.pl: `char_type(a, Type)` answers, in this order,
+    alnum alpha alphabetic alphanumeric ascii ascii_graphic hexadecimal_digit lower octet prolog
+    symbolic_control lower("a") upper("A").  (The pinned implementation answers lower("A"):
+    notes/findings/C22-1.md.) -/
+theorem C22_char_type_doc_example :
+    charType asciiInfo 128 (.con (charAtom 'a')) (.var "Type") =
+      .ok ((["alnum", "alpha", "alphabetic", "alphanumeric", "ascii", "ascii_graphic",
+              "hexadecimal_digit", "lower", "octet", "prolog", "symbolic_control"].map fun n =>
+              [("Type", Val.one (.atom n.toList))]) ++
+           [[("Type", .app "lower" [charAtom 'a'])], [("Type", .app "upper" [charAtom 'A'])]]) := by
+  decide
+
+/-- error table of char_type/2: the character's type first, then the domain of the type, then the
+    instantiation error when neither argument is ground. -/
+theorem C22_char_type_errors (info : Nat → CharInfo) (limit : Nat) :
+    (∀ t ty, charType info limit (.other t) ty = .error (.type "character" t)) ∧
+    (∀ i ty, charType info limit (.con (.int i)) ty = .error (.type "character" (.int i))) ∧
+    (∀ a ty, a.length ≠ 1 →
+        charType info limit (.con (.atom a)) ty = .error (.type "character" (.atom (String.ofList a)))) ∧
+    (∀ c t, charType info limit (.con (charAtom c)) (.bad t) = .error (.dom "char_type" t)) ∧
+    (∀ v t, charType info limit (.var v) (.bad t) = .error (.dom "char_type" t)) ∧
+    (∀ v w, charType info limit (.var v) (.var w) = .error .inst) := by
+  refine ⟨?_, ?_, ?_, ?_, ?_, ?_⟩
+  · intros; simp [charType, Arg.toTerm]
+  · intros; simp [charType, Arg.toTerm, Atomic.toTerm]
+  · intro a ty h
+    match a, h with
+    | [], _ => simp [charType, Arg.toTerm, Atomic.toTerm]
+    | _ :: _ :: _, _ => simp [charType, Arg.toTerm, Atomic.toTerm]
+  · intros; simp [charType, charAtom, isCType, TArg.toTerm]
+  · intros; simp [charType, isCType, TArg.toTerm]
+  · intros; simp [charType, isCType, TArg.ground]
+
+/-- `ccode/1` enumerates exactly the scalar values, in ascending order. -/
+theorem C22_ccodes_exact (n : Nat) : n ∈ ccodes 0x110000 ↔ validScalar (n : Int) = true := by
+  simp only [ccodes, List.mem_append, List.mem_range, List.mem_range', validScalar,
+    Bool.or_eq_true, Bool.and_eq_true, decide_eq_true_eq]
+  constructor
+  · rintro (h | ⟨i, hi, rfl⟩) <;> omega
+  · rintro (h | h)
+    · left; omega
+    · right; exact ⟨n - 0xE000, by omega, by omega⟩
+
+/-! ## non-vacuity: the branches are reached -/
+
+example : atomLength (.con (.atom "aé€😀".toList)) (.var "N") = .ok [[("N", .one (.int 4))]] := by decide
+example : utf8Len "aé€😀".toList = 10 := by decide
+example : (subTriples "abc".toList).length = 10 := by decide
+example : subAtom (.con (.atom "abab".toList)) (.var "B") (.var "L") (.var "A") (.con (.atom "ab".toList))
+    = .ok [[("B", .one (.int 0)), ("L", .one (.int 2)), ("A", .one (.int 2))],
+           [("B", .one (.int 2)), ("L", .one (.int 2)), ("A", .one (.int 0))]] := by decide
+example : atomConcat (.var "X") (.var "X") (.con (.atom "abab".toList)) = .ok [[("X", .one (.atom "ab".toList))]] := by
+  decide
+example : validScalar 0xD7FF = true ∧ validScalar 0xD800 = false ∧ validScalar 0xDFFF = false ∧
+    validScalar 0xE000 = true ∧ validScalar 0x10FFFF = true ∧ validScalar 0x110000 = false ∧
+    validScalar (-1) = false ∧ validScalar (2 ^ 64 + 97) = false := by decide
+/-- the pinned `lower(_)` arm returns `to_uppercase`: different from `to_lowercase` on 52 ASCII characters. -/
+example : (asciiInfo 97).upper ≠ (asciiInfo 97).lower := by decide
 
 end Scryer.AtomOps
